@@ -38,8 +38,7 @@ def status_of(solution):
             if st.startswith('Optimal'):
                 return ('opt', float(val))
             return ('other', st)
-        if st in (0, 2, 'optimal', 'Optimal') or True:
-            return ('opt', float(val))
+        return ('opt', float(val))
     if isinstance(st, str):
         if st.startswith('Primal infeasible'):
             return ('infeasible', None)
@@ -138,7 +137,12 @@ def fmt(st):
 
 
 def exc_class(ex):
-    return type(ex).__name__
+    """Stable description of an exception: class name plus the message with all digits masked."""
+    import re
+    msg = re.sub(r'[0-9]+', '#', str(ex))
+    msg = re.sub(r'[^A-Za-z# ]+', ' ', msg)
+    msg = ' '.join(msg.split())[:40].strip()
+    return '%s(%s)' % (type(ex).__name__, msg)
 
 
 # ------------------------------------------------------------------------------------------------
@@ -149,7 +153,7 @@ KIND_LIST = {
     'bnd': 'bounds', 'lin': 'lin_constr', 'eq': 'lin_constr(eq)+bounds', 'abs': 'pws_constr(A)',
     'n1': 'pws_constr(M)', 'ninf': 'pws_constr(I)', 'n2': 'cvx_constr(E)', 'sq': 'cvx_constr(S)',
     'ssq': 'cvx_constr(Q)', 'quad': 'cvx_constr(Q,matrix)', 'p3': 'ip_constr(G)', 'p52': 'ip_constr(G,5/2)',
-    'pow': 'ip_constr(T)', 'gm': 'ip_constr(C)+bounds', 'exp': 'other_constr(X)->exp_constr',
+    'pow': 'ip_constr(T)', 'gm': 'ip_constr(C)+bounds', 'gm12': 'ip_constr(C,beta=[1,2])+bounds', 'exp': 'other_constr(X)->exp_constr',
     'ent': 'other_constr(P)+lin', 'kl': 'other_constr(KL)+lin',
 }
 KINDS_LP = ['bnd', 'lin', 'eq', 'abs', 'n1', 'ninf']
@@ -196,6 +200,8 @@ def mkset(z, kind, size):
         return [rso.power(z - c, 3) <= r ** 3]
     if kind == 'gm':
         return [rso.gmean(z - (c - r)) >= 0.5 * r, z <= c + r]
+    if kind == 'gm12':
+        return [rso.gmean(z - (c - r), [1, 2]) >= 0.5 * r, z <= c + r]
     if kind == 'exp':
         return [rso.exp((z[0] - c[0]) * (1.0 / r)) <= (z[1] - c[1]) * (1.0 / r) + 2.0,
                 z[1] <= float(c[1] + r), z[0] >= float(c[0] - r)]
